@@ -549,8 +549,8 @@ func crashSignature(errPath string) (string, string) {
 
 // ---- race detector reports -----------------------------------------------------
 
-var libFrame = regexp.MustCompile(`^\s+(github\.com/(?:veraison|fxamacker)/[^\s(]+)`)
-var harnessFrame = regexp.MustCompile(`^\s+(verif/harness/[^\s(]+)`)
+var libFrame = regexp.MustCompile(`^\s+(github\.com/(?:veraison|fxamacker)/\S+?)\(\)\s*$`)
+var harnessFrame = regexp.MustCompile(`^\s+(verif/harness/\S+?)\(\)\s*$`)
 
 func collectRaces(prop, work string) (int, []report.Violation) {
 	files, _ := filepath.Glob(filepath.Join(work, "race-*"))
